@@ -51,10 +51,10 @@ def demo_info(d):
     m = re.search(r"cp\s+\S*_test\.go\s+(\S+)", run)
     if m:
         dest = m.group(1)
-        dest = re.sub(r"^/tmp/seed[23]?/C\d+/", "", dest)
+        dest = re.sub(r"^/tmp/seed[234]?/C\d+/", "", dest)
         dest = re.sub(r"^<[a-z ]+>/", "", dest)
     mm = re.search(r"mkdir -p (\S+)", run)
-    rm = re.search(r"-run\s+'?\"?([^'\"\s]+)", run)
+    rm = re.search(r"go test[^\n]*?-run\s+'?\"?([^'\"\s]+)", run)
     pkgm = re.search(r"go test[^\n]*?(\./\S+)\s*$", run, re.M)
     return files, dest, (mm.group(1) if mm else None), (rm.group(1) if rm else None), (pkgm.group(1) if pkgm else None)
 
@@ -62,9 +62,9 @@ def demo_info(d):
 def main():
     only = [a for a in sys.argv[1:] if not a.startswith("--")]
     os.makedirs("/verif/seeded", exist_ok=True)
-    for d in sorted(glob.glob("/tmp/seed/out/C*/m[0-9]")) + sorted(glob.glob("/tmp/seed2/out/C*/m[0-9]")) + sorted(glob.glob("/tmp/seed3/out/C*/m[0-9]")):
+    for d in sorted(glob.glob("/tmp/seed/out/C*/m[0-9]")) + sorted(glob.glob("/tmp/seed2/out/C*/m[0-9]")) + sorted(glob.glob("/tmp/seed3/out/C*/m[0-9]")) + sorted(glob.glob("/tmp/seed4/out/C*/m[0-9]")):
         pid, mn = d.split("/")[-2], d.split("/")[-1]
-        name = f"{pid}-{mn}" if d.startswith("/tmp/seed/") else (f"{pid}-r2{mn}" if d.startswith("/tmp/seed2/") else f"{pid}-r3{mn}")
+        name = f"{pid}-{mn}" if d.startswith("/tmp/seed/") else (f"{pid}-r2{mn}" if d.startswith("/tmp/seed2/") else (f"{pid}-r3{mn}" if d.startswith("/tmp/seed3/") else f"{pid}-r4{mn}"))
         if only and name not in only and pid not in only:
             continue
         try:
@@ -125,6 +125,8 @@ def main():
                             t = os.path.join(t, os.path.basename(f))
                     elif mk:
                         t = os.path.join(wt, mk, os.path.basename(f))
+                    elif pkg and not pkg.endswith("..."):
+                        t = os.path.join(wt, pkg.lstrip("./"), os.path.basename(f))
                     else:
                         t = os.path.join(wt, pkgs[0], os.path.basename(f))
                     os.makedirs(os.path.dirname(t), exist_ok=True)
